@@ -30,7 +30,20 @@ def main():
     ap.add_argument("pids", nargs="+")
     ap.add_argument("--from", dest="src", default=None)
     ap.add_argument("--tier", default="quick")
+    ap.add_argument("--wt", action="store_true",
+                    help="work on a scratch git worktree of /repo (bin/check honours ZCV_REPO) instead of /repo itself, "
+                         "so that several seeds can be tried at once and other checks may run meanwhile")
     a = ap.parse_args()
+    global REPO
+    wt = None
+    if a.wt:
+        wt = tempfile.mkdtemp(prefix="zcv-try-%s-" % a.name, dir="/var/tmp")
+        os.rmdir(wt)
+        r = sh("git -C /repo worktree add --detach %s HEAD" % wt)
+        if r.returncode != 0:
+            print(r.stdout)
+            return 2
+        REPO = wt
     sd = os.path.join(VERIF, "seeded", a.name)
     if a.src:
         os.makedirs(sd, exist_ok=True)
@@ -41,7 +54,7 @@ def main():
     demo = os.path.join(sd, "demo.py")
     meta_path = os.path.join(sd, "meta.json")
     meta = json.load(open(meta_path)) if os.path.exists(meta_path) else {}
-    if sh("git -C %s status --porcelain --untracked-files=no" % REPO).stdout.strip():
+    if not a.wt and sh("git -C %s status --porcelain --untracked-files=no" % REPO).stdout.strip():
         print("refusing: /repo has uncommitted changes")
         return 2
     env = dict(os.environ, PYTHONPATH=REPO + "/src")
@@ -54,13 +67,15 @@ def main():
             print("patch does not apply:\n" + ap_.stdout)
             meta["applies"] = False
             return 2
-        tests = sh("cd %s && /venv/bin/python -m pytest -q -p no:cacheprovider -x --deselect "
-                   "src/ZConfig/tests/test_validator.py::TestValidator::test_schema_only 2>&1 | tail -1" % REPO)
+        tests = sh("cd %s && PYTHONPATH=%s/src /venv/bin/python -m pytest -q -p no:cacheprovider -x --deselect "
+                   "src/ZConfig/tests/test_validator.py::TestValidator::test_schema_only 2>&1 | tail -1" % (REPO, REPO))
         r1 = sh("/venv/bin/python %s" % demo, env=env, cwd=tempfile.gettempdir())
         print("demo clean exit=%d, with change exit=%d; tests: %s" % (r0.returncode, r1.returncode, tests.stdout.strip()))
         for pid in a.pids:
             t0 = time.time()
             e = dict(os.environ, ZCV_EVIDENCE_DIR=os.path.join(scratch, "ev"), ZCV_REPLAY_DIR=os.path.join(scratch, "rp"))
+            if wt:
+                e["ZCV_REPO"] = wt
             c = sh("%s/bin/check %s --tier %s" % (VERIF, pid, a.tier), env=e, cwd=VERIF)
             viol = [l for l in c.stdout.splitlines() if l.startswith("VIOLATION")]
             first = None
@@ -81,7 +96,11 @@ def main():
                      "repo_tests_with_change": tests.stdout.strip(), "applies": True})
         meta.setdefault("runs", {}).update(runs)
     finally:
-        sh("git -C %s reset -q --hard HEAD && git -C %s clean -fdq src" % (REPO, REPO))
+        if wt:
+            sh("git -C /repo worktree remove --force %s" % wt)
+            shutil.rmtree(wt, ignore_errors=True)
+        else:
+            sh("git -C %s reset -q --hard HEAD && git -C %s clean -fdq src" % (REPO, REPO))
         shutil.rmtree(scratch, ignore_errors=True)
         with open(meta_path, "w") as f:
             json.dump(meta, f, indent=1, sort_keys=True)
